@@ -194,6 +194,13 @@ type PEntry struct {
 	Ok   bool  `json:"ok"`
 }
 
+// what a group's own listers return right after the scan (names), as the controller would see them
+type PObsList struct {
+	Name  string   `json:"name"`
+	Pods  []string `json:"pods"`
+	Nodes []string `json:"nodes"`
+}
+
 type PHints struct {
 	Old []int `json:"old"`
 	New []int `json:"new"`
